@@ -8,10 +8,12 @@ import (
 
 	"github.com/google/go-containerregistry/pkg/name"
 	regv1 "github.com/google/go-containerregistry/pkg/v1"
+	"github.com/spf13/afero"
 
 	"github.com/crossplane/crossplane-runtime/pkg/parser"
 
 	pkgv1 "github.com/crossplane/crossplane/apis/pkg/v1"
+	"github.com/crossplane/crossplane/internal/xpkg"
 	pkgrev "github.com/crossplane/crossplane/internal/controller/pkg/revision"
 	"github.com/crossplane/crossplane/verif/explore"
 	"github.com/crossplane/crossplane/verif/pkgh"
@@ -93,4 +95,57 @@ func sharedBackendBody(r *explore.Run, rep *report.R, sc string, nThreads int) {
 		summary = append(summary, fmt.Sprint(len(got[l])))
 	}
 	rep.Eval(sc, report.Hash(summary), report.Hash(sc, append([]int{}, r.Choices...)))
+}
+
+// sharedCacheBody: the package cache, too, is one object for all revisions
+// of a kind, and what Get returns is read after Get has returned. Two (three)
+// threads Get different entries of a warm cache and read them; between a
+// thread's Get and its reads the others may run. Each thread must read the
+// content stored under its own id.
+func sharedCacheBody(r *explore.Run, rep *report.R, sc string, nThreads int) {
+	labels := []string{"A", "B", "C"}[:nThreads]
+	fs := afero.NewMemMapFs()
+	c := xpkg.NewFsPackageCache("/cache", fs)
+	content := map[string]string{}
+	for _, l := range labels {
+		content[l] = "package-stream-of-" + l + strings.Repeat("/"+l, 40)
+		if err := c.Store("pkg-"+strings.ToLower(l)+"-rev1", io.NopCloser(strings.NewReader(content[l]))); err != nil {
+			panic(explore.HarnessError{Msg: "warming the cache: " + err.Error()})
+		}
+	}
+	s := sched.New(r)
+	defer s.Close()
+	got := map[string]string{}
+	errs := map[string]error{}
+	for _, l := range labels {
+		l := l
+		s.Spawn("T"+l, func() {
+			rc, err := c.Get("pkg-" + strings.ToLower(l) + "-rev1")
+			if err != nil {
+				errs[l] = err
+				return
+			}
+			s.Point("between-get-and-read")
+			b, err := io.ReadAll(rc)
+			if err != nil {
+				errs[l] = err
+			}
+			s.Point("between-read-and-close")
+			_ = rc.Close()
+			got[l] = string(b)
+		})
+	}
+	s.Run()
+	if len(s.Panics) > 0 {
+		r.Failf("panic/shared-cache", "thread panicked: %v", s.Panics)
+	}
+	for _, l := range labels {
+		if errs[l] != nil {
+			r.Failf("exact/shared-cache/read-fails", "reading cache entry %s beside other readers fails: %v", l, errs[l])
+		}
+		if got[l] != content[l] {
+			r.Failf("exact/shared-cache/content-of-another-entry", "the package cache is shared by all revisions of a kind; the reader Get returned for entry %s, read while other entries were being fetched, delivered %q... instead of the content stored for %s", l, got[l][:min(24, len(got[l]))], l)
+		}
+	}
+	rep.Eval(sc, report.Hash(len(labels)), report.Hash(sc, append([]int{}, r.Choices...)))
 }
